@@ -220,6 +220,20 @@ def run_combinator(kind, rng, obs, hostile=False):
     if path == 'onexit' and kind == 'and' and pins_conflict(specs):
         obs.check(False, 'and:members without a common fixed point cannot succeed', members=specs, x=x0, result=out)
     ncalls = sum(t.n for t in theirs)
+    # the combined constraint used once more on another vector: it must answer as a freshly built one does (no state kept from the first call)
+    x1 = gen_x(rng, dim)
+    p3 = Paths(); comb3, _ = build(p3, 'both')
+    del paths.fired[:]
+    st = _random.getstate()
+    out_a = list(comb(list(x1))); fired_a = list(paths.fired)
+    after = _random.getstate(); _random.setstate(st)
+    try:
+        out_b = list(comb3(list(x1)))
+    finally:
+        _random.setstate(after)
+    obs.check(fired_a == p3.fired and out_a == out_b, tag + ':a combined constraint keeps no state between calls', members=specs, first_x=x0, second_x=x1,
+              reused=[fired_a, out_a], fresh=[p3.fired, out_b], maxiter=maxiter)
+    obs.event('reuse_calls')
     obs.nontrivial = (ncalls > len(specs)) or path == 'onfail' or cnt.n > 0
     obs.notes = {'path': path, 'member_calls': ncalls, 'random_draws': cnt.n, 'result': out}
 
